@@ -608,7 +608,7 @@ fn apply_ops(w: &World, mut ctx: ExecutionContext<'static>, mut m: ModelCtx, n: 
 fn run(ctx: &RunCtx) -> Result<(), Violation> {
     seams::reset(ctx.run);
     let _scenario = choose(1, "scenario");
-    let spec = wgen::gen_scheme(&[8, 4, 6, 6, 0, 0, 2, 1], chance(1, 2, "with_lists"), false);
+    let spec = wgen::gen_scheme(&[8, 4, 6, 6, 0, 0, 2, 1, 4], chance(1, 2, "with_lists"), false);
     let scheme = spec.build();
     let twin = spec.build();
     for sch in [&scheme, &twin] {
